@@ -162,6 +162,28 @@ def r2_truncate(ctx, repo):
     sk = _scalar_key(fn)
     if sk:
         problems.append(("violated", sk))
+    # members put back after the de-duplication: a list that holds each design once is extended by members of the input
+    # population that were left out - the copies that had just been removed
+    dedup_names = {k for k, v in tags.items() if v and ("DEDUP" in repr(v))}
+    from_input = {pop}
+    for _ in range(3):
+        for a_ in ast.walk(fn):
+            if isinstance(a_, ast.Assign) and len(a_.targets) == 1 and isinstance(a_.targets[0], ast.Name) and a_.targets[0].id not in dedup_names:
+                if any(isinstance(n_, ast.Name) and n_.id in from_input for n_ in ast.walk(a_.value)) and not any(
+                        isinstance(c_, ast.Call) and access_path(c_.func) in ("set", "frozenset") for c_ in ast.walk(a_.value)):
+                    from_input.add(a_.targets[0].id)
+            elif isinstance(a_, ast.For) and isinstance(a_.target, ast.Name) and any(isinstance(n_, ast.Name) and n_.id in from_input for n_ in ast.walk(a_.iter)):
+                from_input.add(a_.target.id)
+            elif isinstance(a_, ast.Call) and isinstance(a_.func, ast.Attribute) and a_.func.attr in ("append", "extend") and isinstance(a_.func.value, ast.Name) \
+                    and a_.func.value.id not in dedup_names and a_.args and any(isinstance(n_, ast.Name) and n_.id in from_input for n_ in ast.walk(a_.args[0])):
+                from_input.add(a_.func.value.id)
+    for c_ in ast.walk(fn):
+        if isinstance(c_, ast.Call) and isinstance(c_.func, ast.Attribute) and c_.func.attr in ("extend", "append") and access_path(c_.func.value) in dedup_names and c_.args:
+            if any(isinstance(n_, ast.Name) and n_.id in from_input for n_ in ast.walk(c_.args[0])):
+                problems.append(("violated", "after the copies of a design were removed, `%s` is filled up again from the input population (%s): the members left out were exactly the removed "
+                                 "copies, so a design can be returned more than once and the result has more than min(size, number of distinct designs) members"
+                                 % (access_path(c_.func.value), text(c_)[:90])))
+                break
     um = _unrecorded_membership(fn)
     if um:
         problems.append(("violated", um))
